@@ -21,12 +21,12 @@ import (
 )
 
 type etree struct {
-	Kind string  `json:"k"` // J C X D P W N
-	Code int32   `json:"c,omitempty"`
-	Msg  string  `json:"m,omitempty"`
-	Data string  `json:"d,omitempty"` // "" = absent
-	A    *etree  `json:"a,omitempty"`
-	B    *etree  `json:"b,omitempty"`
+	Kind string `json:"k"` // J C X D P W N
+	Code int32  `json:"c,omitempty"`
+	Msg  string `json:"m,omitempty"`
+	Data string `json:"d,omitempty"` // "" = absent
+	A    *etree `json:"a,omitempty"`
+	B    *etree `json:"b,omitempty"`
 }
 
 type myCoder struct {
@@ -216,11 +216,16 @@ func TestC14(t *testing.T) {
 		"bad": func(ctx context.Context, req *jrpc2.Request) (any, error) {
 			return map[string]any{"f": func() {}}, nil // not marshalable
 		},
-		"badch": func(ctx context.Context, req *jrpc2.Request) (any, error) { return make(chan int), nil },
-		"nan":   func(ctx context.Context, req *jrpc2.Request) (any, error) { return math.NaN(), nil },
+		"badch":  func(ctx context.Context, req *jrpc2.Request) (any, error) { return make(chan int), nil },
+		"nan":    func(ctx context.Context, req *jrpc2.Request) (any, error) { return math.NaN(), nil },
 		"rawbad": func(ctx context.Context, req *jrpc2.Request) (any, error) { return json.RawMessage(`{"a":[1,2,}`), nil },
-		"rawtrunc": func(ctx context.Context, req *jrpc2.Request) (any, error) { return json.RawMessage(`{"a":"unterminated`), nil },
-		"rawptr": func(ctx context.Context, req *jrpc2.Request) (any, error) { r := json.RawMessage(`nope`); return &r, nil },
+		"rawtrunc": func(ctx context.Context, req *jrpc2.Request) (any, error) {
+			return json.RawMessage(`{"a":"unterminated`), nil
+		},
+		"rawptr": func(ctx context.Context, req *jrpc2.Request) (any, error) {
+			r := json.RawMessage(`nope`)
+			return &r, nil
+		},
 		"marshaler": func(ctx context.Context, req *jrpc2.Request) (any, error) { return badMarshaler{}, nil },
 	}
 	loc := server.NewLocal(c14mux, &server.LocalOptions{Server: &jrpc2.ServerOptions{Concurrency: 4}})
